@@ -1,2 +1,133 @@
-(* C07 - placeholder while the plugin is being brought up *)
-From MafVerif Require Import lib.Base model.Sorter.
+(* C07 - The external sorter returns a sorted permutation for every capacity
+   and order.  Property theorems only; proofs are in proofs/SorterFacts.v.
+
+   Every theorem is about model/Sorter.v (Sorter.add / __spill / __iter__ /
+   _SortedIterator / _MergingIterator of the repaired code), for EVERY item
+   type A, key type K, text type D, key function, codec, capacity >= 1, spill
+   policy and input list, under three hypotheses that appear in the statements:
+     swo K lt                 the key order is a strict weak order (for MAF
+                              keys this is property C08)
+     pick_contract pick_min   sorted()/heapq return a minimal element and a
+                              permutation of the rest
+     codec_contract ...       decode (encode x) succeeds, re-encodes to the
+                              same text and has a key equivalent to x's (for
+                              MafSorterCodec this is property C04)
+   Keys and values are never tested for truth in the model (as in the repaired
+   code), so keys 0, '', () ... are covered by "every K". *)
+From Coq Require Import Permutation Sorted.
+From MafVerif Require Import lib.Base lib.SorterLib model.Sorter proofs.SorterFacts.
+
+Section C07.
+  Variables A K D : Type.
+  Variable keyf : A -> res K.
+  Variable lt : K -> K -> bool.
+  Variable enc : A -> D.
+  Variable dec : D -> res A.
+  Variable pick_min : forall X : Type, (X -> X -> bool) -> list X -> option (X * list X).
+  Hypothesis lt_swo : swo K lt.
+  Hypothesis pick_ok : pick_contract pick_min.
+  Hypothesis codec_ok : codec_contract A K D keyf lt enc dec.
+
+  Notation adds := (adds A K D keyf lt enc pick_min).
+  Notation iter := (iter A K D keyf lt dec pick_min).
+  Notation keys_of := (keys_of A K keyf).
+
+  (* every added item comes back exactly once (same text; the value is the
+     decoding of that text), in non-decreasing key order; the iteration ends
+     normally (None = StopIteration).  n = 0 and n a multiple of the capacity
+     are instances. *)
+  Theorem C07_sorted_permutation :
+    forall (c : nat) (al : bool) (xs : list A) s,
+      (1 <= c)%nat -> adds (new K D c al) xs = Ok s ->
+      exists ys s', iter s = ((ys, None), s') /\
+        Permutation (map enc ys) (map enc xs) /\
+        Forall (fun y => dec (enc y) = Ok y) ys /\
+        exists ks, keys_of ys ks /\ StronglySorted (le K lt) ks.
+  Proof. exact (sorted_permutation A K D keyf lt enc dec pick_min lt_swo pick_ok codec_ok). Qed.
+
+  (* the key sequence does not depend on capacity, spill policy or insertion order *)
+  Theorem C07_keys_independent_of_configuration :
+    forall c al c' al' (xs xs' : list A) s t ys s1 ys' t1,
+      (1 <= c)%nat -> (1 <= c')%nat -> Permutation xs xs' ->
+      adds (new K D c al) xs = Ok s -> adds (new K D c' al') xs' = Ok t ->
+      iter s = ((ys, None), s1) -> iter t = ((ys', None), t1) ->
+      exists ks ks', keys_of ys ks /\ keys_of ys' ks' /\ Forall2 (eqv K lt) ks ks'.
+  Proof. exact (keys_independent A K D keyf lt enc dec pick_min lt_swo pick_ok codec_ok). Qed.
+
+  (* iterating again gives the same key sequence (and again a sorted permutation) *)
+  Theorem C07_reiteration :
+    forall c al (xs : list A) s ys s1,
+      (1 <= c)%nat -> adds (new K D c al) xs = Ok s -> iter s = ((ys, None), s1) ->
+      exists ys2 s2, iter s1 = ((ys2, None), s2) /\
+        Permutation (map enc ys2) (map enc xs) /\
+        exists ks ks2, keys_of ys ks /\ keys_of ys2 ks2 /\ Forall2 (eqv K lt) ks ks2 /\
+                       StronglySorted (le K lt) ks2.
+  Proof. exact (reiteration A K D keyf lt enc dec pick_min lt_swo pick_ok codec_ok). Qed.
+
+  (* histories: items added after an iteration are sorted in with the earlier ones *)
+  Theorem C07_add_after_iteration :
+    forall c al (xs : list A) s ys s1 more s2,
+      (1 <= c)%nat -> adds (new K D c al) xs = Ok s -> iter s = ((ys, None), s1) ->
+      adds s1 more = Ok s2 ->
+      exists ys2 s3, iter s2 = ((ys2, None), s3) /\
+        Permutation (map enc ys2) (map enc (xs ++ more)) /\
+        exists ks2, keys_of ys2 ks2 /\ StronglySorted (le K lt) ks2.
+  Proof. exact (add_after_iteration A K D keyf lt enc dec pick_min lt_swo pick_ok codec_ok). Qed.
+End C07.
+Print Assumptions C07_sorted_permutation.
+Print Assumptions C07_keys_independent_of_configuration.
+Print Assumptions C07_reiteration.
+Print Assumptions C07_add_after_iteration.
+
+(* the oracle instance the extracted model runs with satisfies the contract,
+   so the theorems apply to the runs compared with /repo *)
+Theorem C07_extracted_oracle_meets_contract : pick_contract leftmost_min.
+Proof. exact leftmost_min_contract. Qed.
+Print Assumptions C07_extracted_oracle_meets_contract.
+
+(* ---------- non-vacuity: integer keys with zero and negative keys, ties,
+   three chunks the last of them partial; and the corner cases ---------- *)
+Definition kf (x : Z * Z) : res Z := Ok (fst x - 1).          (* key = x - 1, as in the corpus *)
+Definition ident (x : Z * Z) : Z * Z := x.
+Definition deco (x : Z * Z) : res (Z * Z) := Ok x.
+
+Lemma demo_codec : codec_contract (Z * Z) Z (Z * Z) kf Z.ltb ident deco.
+Proof.
+  intros a k Hk. exists a, k. repeat split; try assumption; apply Z.ltb_irrefl.
+Qed.
+
+Definition demo_xs : list (Z * Z) := [(3, 0); (1, 1); (2, 2); (1, 3); (4, 4); (5, 5); (0, 6)].
+Definition demo_run (c : nat) (al : bool) (xs : list (Z * Z)) :=
+  match adds (Z * Z) Z (Z * Z) kf Z.ltb ident leftmost_min (new Z (Z * Z) c al) xs with
+  | Ok s => Some (fst (iter (Z * Z) Z (Z * Z) kf Z.ltb deco leftmost_min s))
+  | Raise _ => None
+  end.
+
+(* Sorter(10, key=x-1) over [3,1,2,1,4,5,0]: the pinned tree returned [1] *)
+Example demo_cap10 :
+  demo_run 10 true demo_xs = Some ([(0, 6); (1, 1); (1, 3); (2, 2); (3, 0); (4, 4); (5, 5)], None).
+Proof. vm_compute. reflexivity. Qed.
+Example demo_cap3_three_chunks :
+  demo_run 3 true demo_xs = Some ([(0, 6); (1, 1); (1, 3); (2, 2); (3, 0); (4, 4); (5, 5)], None).
+Proof. vm_compute. reflexivity. Qed.
+Example demo_in_memory :
+  demo_run 8 false demo_xs = Some ([(0, 6); (1, 1); (1, 3); (2, 2); (3, 0); (4, 4); (5, 5)], None).
+Proof. vm_compute. reflexivity. Qed.
+Example demo_exact_multiple :
+  demo_run 2 false [(3, 0); (1, 1); (2, 2); (1, 3)] = Some ([(1, 1); (1, 3); (2, 2); (3, 0)], None).
+Proof. vm_compute. reflexivity. Qed.
+Example demo_empty : demo_run 4 true [] = Some ([], None).
+Proof. vm_compute. reflexivity. Qed.
+
+(* the general theorem instantiated: hypotheses are satisfiable together *)
+Example demo_instance :
+  forall c al xs s, (1 <= c)%nat ->
+    adds (Z * Z) Z (Z * Z) kf Z.ltb ident leftmost_min (new Z (Z * Z) c al) xs = Ok s ->
+    exists ys s', iter (Z * Z) Z (Z * Z) kf Z.ltb deco leftmost_min s = ((ys, None), s') /\
+      Permutation (map ident ys) (map ident xs) /\
+      Forall (fun y => deco (ident y) = Ok y) ys /\
+      exists ks, keys_of (Z * Z) Z kf ys ks /\ StronglySorted (le Z Z.ltb) ks.
+Proof.
+  exact (C07_sorted_permutation (Z * Z) Z (Z * Z) kf Z.ltb ident deco leftmost_min
+           Zltb_swo leftmost_min_contract demo_codec).
+Qed.
